@@ -278,6 +278,8 @@ class Ctx:
                     mm = re.match(r"^([A-Za-z0-9_.']+)\s*:", l)
                     if mm:
                         axioms.append(mm.group(1))
+        prims = sorted(set(a for a in axioms if a.startswith(("PrimInt63.", "PrimFloat.", "Uint63.", "PrimArray."))))
+        axioms = [a for a in axioms if a not in prims]
         bad = self.hygiene()
         if bad:
             raise ProofBroken("hygiene: " + "; ".join(bad[:10]))
@@ -288,6 +290,7 @@ class Ctx:
         info = {
             "theorems": thms, "examples": exs, "refuted_statements": refuted,
             "print_assumptions_closed": closed, "axioms_reported": sorted(set(axioms)),
+            "kernel_primitives_reported": prims,   # Coq's primitive 63-bit integers / binary64 floats: not axioms of this development
         }
         n = len(thms) + len(exs) + len(refuted)
         self.coverage["obligations"] = self.coverage.get("obligations", 0) + n
